@@ -142,7 +142,10 @@ func checkUnmarshal(got any, n mnode, live any, path string) string {
 		}
 		return checkUnmarshal(row[3], ex, c.Expression(), path+".expr")
 	}
-	s := live.(stackage.Stack)
+	s, isStack := live.(stackage.Stack)
+	if !isStack {
+		return fmt.Sprintf("%s: the original tree holds %T where the description has a Stack (the construction calls did not build the described tree)", path, live)
+	}
 	sl, ok := got.([]any)
 	if !ok {
 		return fmt.Sprintf("%s: Stack not expanded into a slice, got %T", path, got)
@@ -397,6 +400,30 @@ func c04Trees(c *Ctx) []mnode {
 		deco := d1[i]
 		deco.Deco = true
 		trees = append(trees, deco, mnode{T: "stack", Kind: kindNames[i%5], Deco: true, Kids: []mnode{deco, leaves[i%len(leaves)], {T: "cond", Kw: "dk", Op: 2, Kids: []mnode{deco}}}})
+	}
+	// the long regime: wide stacks (well beyond the widths above), at the top, nested, as a Condition's
+	// expression, and with a nested Stack / Condition / nil somewhere in the middle
+	widths := []int{8, 9, 10, 17, 33}
+	if !c.Quick() {
+		widths = []int{7, 8, 9, 10, 11, 16, 17, 32, 33, 65, 130}
+	}
+	for wi, w := range widths {
+		kids := make([]mnode, w)
+		for i := range kids {
+			kids[i] = leaves[(i+wi)%len(leaves)]
+			if kids[i].VT == "string" {
+				kids[i] = mnode{T: "leaf", V: fmt.Sprintf("w%d", i), VT: "string"}
+			}
+		}
+		mixed := append([]mnode{}, kids...)
+		mixed[w/2] = mnode{T: "stack", Kind: "OR", Kids: []mnode{leaves[0], leaves[3]}}
+		mixed[w-1] = conds[wi%len(conds)]
+		for _, k := range kindNames {
+			wide := mnode{T: "stack", Kind: k, Kids: kids}
+			trees = append(trees, wide, mnode{T: "stack", Kind: k, Kids: mixed},
+				mnode{T: "stack", Kind: "AND", Kids: []mnode{leaves[0], wide}},
+				mnode{T: "stack", Kind: "LIST", Kids: []mnode{{T: "cond", Kw: "wide", Op: 2, Kids: []mnode{wide}}, leaves[3]}})
+		}
 	}
 	return trees
 }
